@@ -12,6 +12,7 @@ def dispatch (op : String) (j : Json) : Except String Json :=
   | "sort.cmp" => Sort.opCmp j
   | "sort.process" => Sort.opProcess j
   | "sort.file" => Sort.opFile j
+  | "sort.lines" => Sort.opLines j
   | "gaf.print_parse" => Gaf.opPrintParse j
   | "gaf.parse" => Gaf.opParse j
   | "phase.file" => Gaf.opPhase j
